@@ -1,4 +1,5 @@
 import ConjureVerif.Lemmas.WrapShape
+import ConjureVerif.Lemmas.Base64Canon
 import ConjureVerif.Gen.WrapTable
 import ConjureVerif.Gen.JsonSerSrc
 import ConjureVerif.Gen.JsonDeSrc
@@ -149,6 +150,35 @@ theorem C01_json_leaf_spellings (bs : List Nat) (bits : Nat) :
     ser .json .f64 (.f64 .negInf) = some (.str [45, 73, 110, 102, 105, 110, 105, 116, 121]) ∧
     ser .json .f64 (.f64 (.fin bits)) = some (.dbl (.fin bits)) := by
   refine ⟨rfl, rfl, rfl, rfl, rfl⟩
+
+/-- **binary has one JSON spelling**: the string the JSON wrapper accepts for a binary value is exactly the
+    string the serializer writes for the bytes it yields (canonical padding, zero trailing bits), and what it
+    yields are bytes — so reading a binary and writing it again reproduces the document -/
+theorem C01_json_binary_text_is_unique (s bs : List Nat) (h : deBytes .json (.str s) = .ok bs) :
+    serBytes .json bs = .str s ∧ ∀ b ∈ bs, b < 256 := by
+  simp only [deBytes, if_true] at h
+  cases hd : Base64.decode s with
+  | none => rw [hd] at h; cases h
+  | some b =>
+    rw [hd] at h
+    cases h
+    have := Base64.encode_decode s _ hd
+    exact ⟨by simp only [serBytes]; rw [this.1], this.2⟩
+
+/-- the same in key position (both formats) -/
+theorem C01_binary_key_text_is_unique (s bs : List Nat) (h : deKey .bytes (.text s) = .ok (.bytes bs)) :
+    serKey .bytes (.bytes bs) = some (.text s) := by
+  simp only [deKey] at h
+  cases hd : Base64.decode s with
+  | none => rw [hd] at h; cases h
+  | some b =>
+    rw [hd] at h
+    cases h
+    simp only [serKey]
+    rw [(Base64.encode_decode s _ hd).1]
+
+example : deBytes .json (.str [65, 81, 73, 61]) = .ok [1, 2] ∧ deKey .bytes (.text [65, 81, 73, 61]) = .ok (.bytes [1, 2]) := by
+  constructor <;> rfl
 
 /-- **key spellings** (both formats): every map key is a string — booleans `true`/`false`, integers
     in decimal, non-finite doubles by name, binary as padded Base64, uuids hyphenated, strings as is,
